@@ -109,6 +109,7 @@ func c01BuildOpts(r *rand.Rand, next http.Handler, weights []int, histLen int, o
 	} = rrInner
 	viaRB := false
 	c01LastRB = nil
+	c01LastRBAdmin = nil
 	if histLen > 0 && r.IntN(4) == 0 {
 		// (meters that are ready at once and rate every server alike: the rebalancer evaluates the pool on every request it
 		// serves and never has a reason to move a weight)
@@ -118,6 +119,7 @@ func c01BuildOpts(r *rand.Rand, next http.Handler, weights []int, histLen int, o
 		}
 		viaRB = true
 		c01LastRB = rb
+		c01LastRBAdmin = rb
 		rr = struct {
 			c01Admin
 			selector
@@ -203,6 +205,7 @@ func c01BuildOpts(r *rand.Rand, next http.Handler, weights []int, histLen int, o
 
 // c01LastRB: the rebalancer the last pool was built behind (nil: none); requests may be served through it.
 var c01LastRB http.Handler
+var c01LastRBAdmin c01Admin
 
 type c01ConfigErr struct{ msg string }
 
@@ -479,6 +482,54 @@ func c01ConcCase(c *Ctx, i int, r *rand.Rand) {
 		}
 		if viaServe {
 			c.Count("conc_cases_via_ServeHTTP", 1)
+		}
+		if adm := c01LastRBAdmin; adm != nil && ref.posCnt >= 2 {
+			// two administrators re-configure the pool through the rebalancer at the same time: one keeps re-stating the weight
+			// of one server, the other moves another server's weight about and finally back to the configured value; every
+			// call succeeds, so afterwards the configured weights are in force
+			var stopA atomic.Bool
+			var awg sync.WaitGroup
+			a, b := -1, -1
+			for k := range urls {
+				if ws[k] > 0 {
+					if a < 0 {
+						a = k
+					} else if b < 0 {
+						b = k
+					}
+				}
+			}
+			awg.Add(1)
+			go func() {
+				defer awg.Done()
+				for !stopA.Load() {
+					_ = adm.UpsertServer(urls[a], roundrobin.Weight(ws[a]))
+				}
+			}()
+			lost := ""
+			for q := 0; q < 300 && lost == ""; q++ {
+				for _, want := range []int{ws[b] + 1 + q%3, ws[b]} {
+					_ = adm.UpsertServer(urls[b], roundrobin.Weight(want))
+					// once the call has returned its weight is in force: the other administrator only ever re-states weights
+					if w, _ := rr.ServerWeight(urls[b]); w != want {
+						lost = sfmt("call %d asked for weight %d of %v and returned; ServerWeight says %d", 2*q, want, urls[b], w)
+						break
+					}
+				}
+			}
+			stopA.Store(true)
+			awg.Wait()
+			if lost != "" {
+				c.Violation("config/weight", "two administrators re-configuring through the rebalancer concurrently: "+lost, map[string]any{"weights": ws})
+				return
+			}
+			c.Count("conc_rebalancer_admin_races", 1)
+			for _, k := range []int{a, b} {
+				if w, ok := rr.ServerWeight(urls[k]); !ok || w != ws[k] {
+					c.Violation("config/weight", sfmt("two administrators re-configuring through the rebalancer concurrently (every call returned nil): ServerWeight(%v) = %d,%v, the last call for it asked for %d", urls[k], w, ok, ws[k]), map[string]any{"weights": ws})
+					return
+				}
+			}
 		}
 		if i%3 == 0 {
 			// several callers add the same, not yet known server at once; one removal then takes it out again and the pool is
